@@ -163,6 +163,8 @@ def run(ctx):
     rule_reset_coverage(ctx, cfg, r1)
     r2 = ctx.rule("R18.2", "decoder re-initialisation: after init() no scalar field is read before it is written (liveness from State::Start)", floor=13, config=cfg)
     ic.rule_start_liveness(ctx, cfg, r2)
+    r5 = ctx.rule("R18.5", "decoder tables carry nothing over: init_tree overwrites the whole fast table and zeroes the whole overflow tree before building", floor=12, config=cfg)
+    ic.rule_tables_from_scratch(ctx, cfg, r5)
     r3 = ctx.rule("R18.3", "determinism: no mutable statics, hash-randomised containers, clocks, environment access or pointer-to-integer casts", floor=3, config=cfg)
     rule_determinism(ctx, cfg, r3)
     r4 = ctx.rule("R18.4", "C API: mz_deflateReset reaches CompressorOxide::reset on every success path", floor=2, config="CAPI")
